@@ -59,7 +59,20 @@ func tryReplay(w *World, o *Obligation, rp *ReplayFile) {
 			return
 		}
 	}
-	rp.Outcome = "no-adaptor"
+	src, pkg, name, ok, why := genericReplay(w, o, rp)
+	if !ok {
+		rp.Outcome = "no-adaptor"
+		rp.ReplayLog = "no executable replay: " + why
+		return
+	}
+	rp.TestSource, rp.TestPkg, rp.TestName = src, pkg, name
+	out, failed := runOverlayTest(pkg, name, src)
+	rp.ReplayLog = out
+	if failed {
+		rp.Outcome = "reproduced"
+	} else {
+		rp.Outcome = "not-reproduced"
+	}
 }
 
 type replayAdaptor struct {
